@@ -21,7 +21,14 @@ Implementation under test (real code, in-process, under a controlled os.environ)
   system variables, used, and re-parametrised in place (`conf.parametrize`, what graphFromPackage does) must answer
   like a fresh one ("history"); a sample of the cases is served by a child process with another hash seed (the
   code keeps sibling environments in hash-ordered containers).
-Model: lean/St4sd/Model/Env.lean + Model/C17Vars.lean via drv-c17.  Theorems: lean/St4sd/Props/C17.lean, Witness/C17.lean.
+  Typed scalars: the values of environment variables and of global variables are also YAML scalars other than
+  strings — integers (0, negative, beyond 64 bits), floats (0.0, -0.0, exponents), booleans, null (environments only)
+  and the strings that look like them — on the default platform, on the selected platform (overriding the default
+  platform's value), in named environments and in the default environment `environment`, referenced by $NAME /
+  ${NAME} / %(name)s from other values; the oracle requires the text of the scalar as the value (a variable is never
+  dropped because its scalar is falsy; only null / '' is the empty string); the model gets the scalars typed
+  (Model/C17Scalar.lean: Scalar.text).
+Model: lean/St4sd/Model/Env.lean + Model/C17Vars.lean + Model/C17Scalar.lean via drv-c17.  Theorems: lean/St4sd/Props/C17.lean, Witness/C17.lean.
 """
 from __future__ import annotations
 
@@ -64,12 +71,37 @@ def gen_value(rng, names, plain=False):
     return "".join(out)
 
 
+# YAML scalars other than strings that a document may give an environment variable (None = `X:` without a value)
+# or a global variable (never None: FlowIRVariableInvalid): falsy ones (0, 0.0, -0.0, false), negative numbers,
+# floats whose str() uses an exponent, integers beyond 64 bits, and the strings that look like them
+FALSY_SCALARS = [0, 0.0, False, -0.0]
+TYPED_SCALARS = [0, 0, 0.0, False, False, -0.0, 1, 3, 12, -1, -40, True, 2.5, -0.5, 1e-07, 1.5e+20, 10 ** 20]
+STRINGY_SCALARS = ["0", "False", "0.0", "false", "None", "-1"]
+
+
+def gen_scalar(rng, none_ok=True):
+    k = rng.random()
+    if k < 0.12 and none_ok:
+        return None
+    if k < 0.24:
+        return rng.choice(STRINGY_SCALARS)
+    return rng.choice(TYPED_SCALARS)
+
+
+def is_typed(v):
+    return v is None or isinstance(v, (bool, int, float))
+
+
+def is_falsy_scalar(v):
+    return v is not None and not isinstance(v, str) and not v
+
+
 def gen_dict(rng, names, lo=0, hi=4, raw=False):
     d = {}
     for nm in rng.sample(names, rng.randint(lo, min(hi, len(names)))):
         v = gen_value(rng, names)
-        if raw and rng.random() < 0.12:
-            v = rng.choice([None, 3, True, 2.5])
+        if raw and rng.random() < 0.22:
+            v = gen_scalar(rng)
         if rng.random() < 0.12:
             v = ""
         d[nm] = v
@@ -237,8 +269,8 @@ def gen_world_vars(rng, pure=None, plat=None):
     for p, ks in gkeys.items():
         variables[p] = {}
         for n in ks:
-            if rng.random() < 0.08:
-                variables[p][n] = rng.choice([3, 12, 0])
+            if rng.random() < 0.16:
+                variables[p][n] = gen_scalar(rng, none_ok=False)
             elif rng.random() < 0.08:
                 variables[p][n] = ""
             else:
@@ -254,6 +286,11 @@ def gen_world_vars(rng, pure=None, plat=None):
         d = {}
         for k in ks:
             d[k] = "" if rng.random() < 0.06 else gen_vvalue(rng, k, rank, scope, not pure)
+            if rng.random() < 0.14:
+                # not null here: a variable declared without a value that a %(name)s reference reaches makes
+                # FlowIRConcrete.instance fail (FlowIRVariableInvalid, like a null global variable); null values of
+                # environments are generated where no %(name)s reference exists (gen_case / gen_session)
+                d[k] = gen_scalar(rng, none_ok=False)
         if not pure and rng.random() < 0.3:
             d["DEFAULTS"] = ":".join(rng.sample(VPOOL + ["UNDEF", "", CANARY], rng.randint(0, 3)))
         spelled = random_case(rng, n) if rng.random() < 0.25 else n
@@ -479,15 +516,31 @@ def pairs(d):
     return [[str(k), "" if v is None else str(v)] for k, v in d.items()]
 
 
+def scalar_json(v):
+    """a value of the document for the model (Model/C17Scalar.lean): string / integer / boolean / null as they are
+    (the model renders them), a float as the text str() gives (float formatting is not modelled)"""
+    if v is None or isinstance(v, (bool, str)):
+        return v
+    if isinstance(v, int):
+        return v
+    if isinstance(v, float):
+        return {"float": str(v)}
+    return str(v)
+
+
+def tpairs(d):
+    return [[str(k), scalar_json(v)] for k, v in d.items()]
+
+
 def model_request(case, withname=None):
     req = {"op": "node" if withname is None else "withname",
            "sys": pairs(case["sys"]),
-           "envs": [[p, [[n, pairs(d)] for n, d in e.items()]] for p, e in case["envs"].items()],
+           "envs": [[p, [[n, tpairs(d)] for n, d in e.items()]] for p, e in case["envs"].items()],
            "platform": case["platform"], "launch": pairs(case["launch"]), "name": case["name"],
            "interp": case["interp"], "primitive": bool(case.get("primitive", True)),
            "reload": bool(case.get("disk", False)) and not case.get("primitive", True)}
     if "vars" in case:
-        req["vars"] = [[p, pairs(d)] for p, d in case["vars"].items()]
+        req["vars"] = [[p, tpairs(d)] for p, d in case["vars"].items()]
     if withname is not None:
         req.update(withname)
     return req
@@ -511,7 +564,14 @@ def canon_out(o, strip=True):
 # oracle: the property text restated on the inputs, independent of the Lean model
 # ----------------------------------------------------------------------------------------
 
-def _lookup_env(case, platform, lname):
+def scalar_text(v):
+    """the text of a scalar of the document as a value of an environment variable: a variable declared without a
+    value (null) is the empty string; a number or a boolean is a value like any other — `0`, `0.0`, `false` too —
+    rendered the way Python prints it (what the unchanged tree does; the property text does not name a spelling)"""
+    return "" if v is None else str(v)
+
+
+def _lookup_env(case, platform, lname, raw=False):
     """environment `lname` (lower case) as declared for `platform`; names are case-insensitive; when a
     platform spells one name several ways the last differently-cased spelling wins (load order of the code)"""
     envs = case["envs"].get(platform, {})
@@ -519,7 +579,46 @@ def _lookup_env(case, platform, lname):
     for n in envs:
         if n != lname and n.lower() == lname:
             found = envs[n]
-    return None if found is None else {str(k): ("" if v is None else str(v)) for k, v in found.items()}
+    if raw:
+        return found
+    return None if found is None else {str(k): scalar_text(v) for k, v in found.items()}
+
+
+REF = re.compile(r"\$\{?([_a-zA-Z][_a-zA-Z0-9]*)|%\(([a-zA-Z0-9_.-]+)\)s")
+
+
+def typed_tags(case):
+    """which of the typed-scalar shapes the case has (input distribution in the evidence)"""
+    lname = (case["name"] or "environment").lower()
+    if lname == "none":
+        return []
+    d = _lookup_env(case, "default", lname, raw=True) or {}
+    p = (_lookup_env(case, case["platform"], lname, raw=True) or {}) if case["platform"] != "default" else {}
+    sel = dict(d)
+    sel.update(p)
+    tags = set()
+    for k, v in sel.items():
+        if is_typed(v):
+            tags.add("env-value:" + ("null" if v is None else type(v).__name__))
+        if is_falsy_scalar(v):
+            tags.add("env-value:falsy-scalar")
+    if any(is_falsy_scalar(v) and k in d and d[k] not in (None, "") for k, v in p.items()):
+        tags.add("falsy-scalar-of-platform-overrides-default-platform-value")
+    if any(v is None and k in d and d[k] not in (None, "") for k, v in p.items()):
+        tags.add("null-of-platform-overrides-default-platform-value")
+    g = {}
+    for pl in ("default", case["platform"]):
+        g.update(case.get("vars", {}).get(pl) or {})
+    refs = {m.group(1) or m.group(2) for v in list(sel.values()) + list(g.values()) if isinstance(v, str)
+            for m in REF.finditer(v)}
+    if any(is_falsy_scalar(sel.get(r)) for r in refs):
+        tags.add("falsy-env-value-referenced-by-another-value")
+    for k, v in g.items():
+        if is_typed(v):
+            tags.add("global-variable:" + type(v).__name__)
+        if is_falsy_scalar(v) and k in refs and k not in sel:
+            tags.add("falsy-global-variable-referenced-by-env-value")
+    return sorted(tags)
 
 
 def declared_sources(case):
@@ -582,7 +681,7 @@ def layered_globals(case):
     g = {}
     for p in ("default", case["platform"]):
         for k, v in (case.get("vars", {}).get(p) or {}).items():
-            g[str(k)] = "" if v is None else str(v)
+            g[str(k)] = scalar_text(v)
     return g
 
 
@@ -965,12 +1064,12 @@ def session_request(sess):
         if call.get("mutate"):
             calls.append({"op": "mutate", "edits": pairs(mutation_edits(call["mutate"]))})
     req = {"op": "session", "sys": pairs(sess["sys"]),
-           "envs": [[p, [[n, pairs(d)] for n, d in e.items()]] for p, e in sess["envs"].items()],
+           "envs": [[p, [[n, tpairs(d)] for n, d in e.items()]] for p, e in sess["envs"].items()],
            "platform": sess["platform"], "launch": pairs(sess["launch"]),
            "primitive": bool(sess.get("primitive", True)),
            "reload": bool(sess.get("disk", False)) and not sess.get("primitive", True), "calls": calls}
     if "vars" in sess:
-        req["vars"] = [[p, pairs(d)] for p, d in sess["vars"].items()]
+        req["vars"] = [[p, tpairs(d)] for p, d in sess["vars"].items()]
     return req
 
 
@@ -990,6 +1089,8 @@ def check_sessions(ctx, cases):
         tags += sorted({"mutate:" + c["mutate"] for c in sess["calls"] if c.get("mutate")})
         if "vars" in sess:
             tags.append("session-with-%(name)s-references")
+        if any(is_typed(v) for e in sess["envs"].values() for d in e.values() for v in d.values()):
+            tags.append("session-with-typed-scalar-values")
         if sess.get("history"):
             tags.append("re-parametrised-configuration-object")
         if not isinstance(answers, dict):
@@ -1112,6 +1213,7 @@ def check_cases(ctx, cases):
             tags += vars_tags(c)
         if c.get("history"):
             tags.append("re-parametrised-configuration-object")
+        tags += typed_tags(c)
         ctx.case(c, nontrivial=nontrivial(c), tags=tags)
         SEEN_CASES.append((c, raw))
         why, detail = oracle(c, raw)
@@ -1264,6 +1366,29 @@ for _plat, _name, _prim, _disk in (("cluster", "B_TOOLS", False, False), ("clust
                                    ("default", "b_tools", False, True), ("cluster", "a_tools", False, False)):
     CORPUS.append(dict(copy.deepcopy(_VARS_BASE), platform=_plat, name=_name, primitive=_prim, disk=_disk))
 
+# typed scalars (Witness/C17.lean falsy_scalars_are_values): the selected platform re-declares numbers / booleans of the
+# default platform with falsy ones and with null; references to them; typed global variables; the default
+# environment ('environment') with typed values
+_TYPED_BASE = {"platforms": ["default", "single"],
+               "vars": {"default": {"n": 8, "on": True, "ratio": 0.5, "neg": -3},
+                        "single": {"n": 0, "on": False, "ratio": 0.0}},
+               "envs": {"default": {"gpu": {"OMP": 4, "USE_GPU": True, "SCALE": 1.5, "UNSET": "d", "KEEP": 7,
+                                            "LAUNCH": "run --threads=${OMP} --gpu=$USE_GPU -s $SCALE$UNSET",
+                                            "FROMVARS": "%(n)s/%(on)s/%(ratio)s/%(neg)s/%(OMP)s"},
+                                    "environment": {"ZERO": 0, "OFF": False, "Z": "$ZERO$OFF"}},
+                        "single": {"GPU": {"OMP": 0, "USE_GPU": False, "SCALE": 0.0, "UNSET": None, "NEG": -0.0,
+                                           "BIG": 10 ** 20, "TINY": 1e-07}}},
+               "launch": {"HOME": "/root", "OMP": "64", "ZERO": "launch-zero", CANARY: "canary-6"},
+               "sys": {"INSTANCE_DIR": "/i"}, "interp": False, "presence": "both", "name_kind": "named", "pure": False}
+for _plat, _name, _prim, _disk in (("single", "gpu", True, False), ("single", "Gpu", False, False),
+                                   ("single", "gpu", False, True), ("default", "gpu", False, False),
+                                   ("single", None, True, False), ("single", "", False, False)):
+    CORPUS.append(dict(copy.deepcopy(_TYPED_BASE), platform=_plat, name=_name, primitive=_prim, disk=_disk))
+    _c = copy.deepcopy(_TYPED_BASE)
+    del _c["vars"]
+    _c["envs"]["default"]["gpu"].pop("FROMVARS")
+    CORPUS.append(dict(_c, platform=_plat, name=_name, primitive=_prim, disk=_disk))
+
 SESSION_CORPUS = [
     # every kind of source once, twice, in both orders, on one object; the caller rewrites what it gets
     {"session": {"platforms": ["default", "hpc"], "platform": "hpc",
@@ -1322,7 +1447,12 @@ def run(ctx):
                 "that was first built for another platform / flavour / system variables, used, and re-parametrised "
                 "in place; a sample of all cases and sessions is served again at the end of the process in another "
                 "order (every third one with all loggers at DEBUG) and a sample of the cases by a child process with "
-                "another hash seed")
+                "another hash seed.  Typed scalars: 22% of the environment values of the plain cases and sessions, 14% "
+                "of the environment values and 16% of the global variables of the %(name)s cases are YAML scalars "
+                "drawn from {null (environments only), 0, 0.0, -0.0, false, 1, 3, 12, -1, -40, true, 2.5, -0.5, "
+                "1e-07, 1.5e+20, 10**20, '0', 'False', '0.0', 'false', 'None', '-1'} (names collide across "
+                "platforms, so falsy scalars override and are overridden; they are referenced by $NAME / %(name)s "
+                "like any other variable)")
     ctx.assumptions = ["`%` occurs in environment values and global variables only in well-formed %(name)s "
                        "references to plain names (no dotted scopes, no [index] array accesses, no incomplete "
                        "%(name), no names built by other references), the reference graph of every interpolation "
@@ -1331,10 +1461,15 @@ def run(ctx):
                        "os.environ is replaced in-process for the duration of one call / one session (the launch "
                        "environment does not change while a configuration object lives)",
                        "a declared variable whose value is the empty string may be absent from the result "
-                       "(conf.py 1362-1367, as coded; the property speaks about the sources of variables)"]
+                       "(conf.py 1362-1367, as coded; the property speaks about the sources of variables)",
+                       "the value a variable declared with a number or a boolean has is the text Python prints for "
+                       "that scalar (0 -> '0', false -> 'False', 0.0 -> '0.0'; what the unchanged tree does — the "
+                       "property text names no spelling); a variable declared without a value (null) has the empty "
+                       "string; null is not generated for global variables (FlowIRVariableInvalid)"]
     ctx.trusted.append("C17: string.Template / os.path.expandvars are modelled as tokenisers (Env.tokT/tokE) and "
-                       "compared with the library on random strings on every run; str() of non-string values done by "
-                       "the harness")
+                       "compared with the library on random strings on every run; integers, booleans and null are "
+                       "rendered by the model (Scalar.text), the text of a float is str() of the harness (float "
+                       "formatting is not modelled)")
     rng = ctx.rng
     quick = ctx.tier == "quick"
     cases = [dict(c) for c in CORPUS]
